@@ -12,7 +12,15 @@ for pid in ALL:
         NOT_APPLICABLE[pid] = "check still under construction (planned in DESIGN.md section 7); not claimed until its TLA+ clauses and driver are registered"
 checks = []
 for pid in sorted(PROPS):
-    t = TEXTS[pid]
+    t = dict(TEXTS[pid])
+    extra = []
+    mcs = [m for m in PROPS[pid].get('mc', [])]
+    if mcs:
+        extra.append("TLC model checking of the specification itself: %s (see DESIGN.md 13.1 and appendix C)." % ', '.join(mcs))
+    if PROPS[pid].get('replay'):
+        extra.append("Spec->impl: every distinct %s event of the TLA+ calculator machine (Calc.tla, all operation sequences of the bounded dyadic model, the property clauses checked as invariants by TLC) is replayed on the types the real macro generates from the same model registry, in both back-ends, and must reproduce the outcome computed by the specification's algorithm-level action (exact regime, tolerance 0)." % '/'.join(PROPS[pid]['replay']['kinds']))
+    extra.append("If the conformance harness no longer compiles against the repository, an item-existence probe attributes the missing constant / constructor / operator form to the property that promises it (clause <prop>.item_exists).")
+    t['level'] = t['level'] + ' ' + ' '.join(extra)
     checks.append({
         "property_id": pid,
         "quick_cmd": "./check %s --tier quick" % pid,
